@@ -90,3 +90,67 @@ Theorem C07_convert_fuel_enough : forall g : store, wf_store g = true ->
     mconvert f (g ++ ext) (MRef a) = mconvert (S a) (g ++ ext) (MRef a).
 Proof. exact mconvert_fuel_enough. Qed.
 Print Assumptions C07_convert_fuel_enough.
+
+(* (d) Where the template set comes from (compileDir): every file of the directory tree is translated by a
+   translator created for that file.  Two engines whose directories hold the same file under the requested
+   name - alone, or among ANY sibling files, listed in ANY order - answer the request alike, after any
+   histories, whatever the translator and the executor do. *)
+Theorem C07_sibling_independent :
+  forall (src tpl : Type) (translate : src -> tpl)
+         (exec_state : Type) (new_exec : tpl -> gdata -> exec_state)
+         (run_exec : exec_state -> exec_state) (output : exec_state -> option bytes)
+         (files files' : list (bytes * src)) (st st' : list bytes) (rs rs' : list request) (n : bytes) (d : gdata),
+    lookup n files = lookup n files' ->
+    resp tpl (run tpl exec_state new_exec run_exec output (mk_engine tpl (load src tpl translate files) st)
+                  (rs ++ [mk_request n d]))
+    = resp tpl (run tpl exec_state new_exec run_exec output (mk_engine tpl (load src tpl translate files') st')
+                    (rs' ++ [mk_request n d])).
+Proof. exact sibling_independent. Qed.
+Print Assumptions C07_sibling_independent.
+
+(* ... in particular the order in which the directory is listed does not matter *)
+Theorem C07_listing_order_independent :
+  forall (src tpl : Type) (translate : src -> tpl) (files files' : list (bytes * src)) (n : bytes),
+    NoDup (map fst files) -> Permutation.Permutation files files' ->
+    lookup n (load src tpl translate files) = lookup n (load src tpl translate files').
+Proof. exact load_order_independent. Qed.
+Print Assumptions C07_listing_order_independent.
+
+(* a translator that is carried from file to file (here: its mixin table, first definition of a name wins)
+   makes both false: the template stored for `cart` depends on the listing order and on the sibling *)
+Theorem C07_shared_translator_refuted :
+  exists (files files' : list (bytes * mx_src)) n,
+    NoDup (map fst files) /\ Permutation.Permutation files files' /\
+    lookup n (load_shared mx_src (list bytes) (list (bytes * bytes)) mx_translate_st [] files)
+    <> lookup n (load_shared mx_src (list bytes) (list (bytes * bytes)) mx_translate_st [] files')
+    /\ lookup n (load_shared mx_src (list bytes) (list (bytes * bytes)) mx_translate_st [] files)
+       <> lookup n (load_shared mx_src (list bytes) (list (bytes * bytes)) mx_translate_st [] [(B "cart", mx_cart)]).
+Proof. exact shared_translator_refuted. Qed.
+Print Assumptions C07_shared_translator_refuted.
+
+(* (e) What Render returns is a reader over a buffer of its own.  For ALL processes, histories irs, requests
+   (i, r) and ALL further renders [later]: what the caller reads from the result of (i, r) AFTER later is
+   what r is answered by an engine with the same templates in any process p' after any history irs'. *)
+Theorem C07_late_read_independent :
+  forall (tpl exec_state : Type) (new_exec : tpl -> gdata -> exec_state)
+         (run_exec : exec_state -> exec_state) (output : exec_state -> option bytes)
+         (p p' : process tpl) (bufs : list response) (irs irs' later : list (nat * request)) (i j : nat) (r : request),
+    option_map (templates tpl) (nth_error p i) = option_map (templates tpl) (nth_error p' j) ->
+    rread tpl (rrun tpl exec_state new_exec run_exec output (mk_rproc tpl p bufs) (irs ++ (i, r) :: later))
+          (length bufs + length irs)
+    = Some (presp tpl (prun tpl exec_state new_exec run_exec output p' (irs' ++ [(j, r)]))).
+Proof. exact late_read_independent. Qed.
+Print Assumptions C07_late_read_independent.
+
+(* with one recycled buffer behind all readers the first result, read after a second render, is the second *)
+Theorem C07_pooled_buffer_refuted :
+  exists (p : process bytes) (r1 r2 : nat * request),
+    let new_exec := fun (t : bytes) (d : gdata) => t in
+    let run_exec := fun (s : bytes) => s in
+    let output := fun (s : bytes) => Some s in
+    rread_pooled bytes (rrun_pooled bytes bytes new_exec run_exec output (mk_rproc bytes p []) [r1; r2]) 0
+    <> Some (presp bytes (prun bytes bytes new_exec run_exec output p [r1]))
+    /\ rread bytes (rrun bytes bytes new_exec run_exec output (mk_rproc bytes p []) [r1; r2]) 0
+       = Some (presp bytes (prun bytes bytes new_exec run_exec output p [r1])).
+Proof. exact pooled_buffer_refuted. Qed.
+Print Assumptions C07_pooled_buffer_refuted.
